@@ -958,7 +958,7 @@ func TestReplay(t *testing.T) {
 	if os.Getenv("VERIF_REPLAY") != "" {
 		staticAllocatesFromHeader(getTree(t))
 	}
-	kit.Replay(t, propRange, propRangeMatrix, propPath, propPathMatrix)
+	kit.Replay(t, propRange, propRangeMatrix, propPath, propPathMatrix, propSequence, propSequenceMatrix)
 }
 
 var _ = math.MaxInt64
